@@ -196,5 +196,15 @@ class NDSet:
 
 
 def nd_sorted(it, **kw):
-    """sorted() that does not fork on the iteration order of an NDSet."""
-    return sorted(_items_of(it), **kw)
+    """sorted() that does not fork on the iteration order of an NDSet - unless the sort key TIES two different
+    elements: a stable sort then keeps them in the order of the input, i.e. in the set's iteration order."""
+    res = sorted(_items_of(it), **kw)
+    key = kw.get("key")
+    if key is not None and isinstance(it, NDSet):
+        try:
+            tie = any(key(a) == key(b) and a != b for a, b in zip(res, res[1:]))
+        except Exception:  # noqa: BLE001
+            tie = False
+        if tie:
+            return sorted(list(it), **kw)
+    return res
